@@ -162,7 +162,8 @@ def onOpened (w : World) (aw : AddrWorld) (toks : List String) : World × AddrWo
           let w := if arg toks "type" != ty then w.fail "C14" "type" s!"opening {root} gives type {arg toks "type"}, created as {ty}" else w
           if arg toks "write" != wl then w.fail "C14" "acl" s!"opening {root} gives write list {arg toks "write"}, created with {wl}" else w
         | none => w
-      (w, aw)
+      -- a database obtained through `Open` exists locally from then on (F53)
+      (w, { aw with local_ := if aw.local_.contains (q, root) then aw.local_ else (q, root) :: aw.local_ })
 
 /-- `openaddr q <address string>`: an address given by the user (roots written `@rN@`), through the
 `Open` model; and on the implementation alone: the address the store prints must name the database
@@ -206,7 +207,7 @@ def onOpenedAddr (w : World) (aw : AddrWorld) (toks : List String) : World × Ad
       let w := if arg toks "type" != ty then w.fail "C14" "type" s!"opening '{addr}' gives type {arg toks "type"}, {arg toks "root"} was created as {ty}" else w
       if arg toks "write" != wl then w.fail "C14" "acl" s!"opening '{addr}' gives write list {arg toks "write"}, {arg toks "root"} was created with {wl}" else w
     | none => w
-  (w, aw)
+  (w, { aw with local_ := if aw.local_.contains (q, arg toks "root") then aw.local_ else (q, arg toks "root") :: aw.local_ })
 
 def onParsed (w : World) (aw : AddrWorld) (toks : List String) : World × AddrWorld :=
   match aw.last with
@@ -439,6 +440,7 @@ def Full.step (f : Full) (line : String) : Full :=
     let w := bump f.w
     let extra := parseInt (arg toks "extra")
     let w := if extra > 0 then w.fail "C18" "leak" s!"{extra} store-layer goroutines still running after every store was closed: {arg toks "kinds"}" else w
+    let w := if parseInt (arg toks "busblocked") > 0 then w.fail "C18" "leak" s!"after Close, {arg toks "busblocked"} instance(s) left a subscription on the event bus that nobody reads: an emitter of pubsub payloads blocks for ever once its buffer is full" else w
     let subs := parseInt (arg toks "subs")
     { f with w := if subs > 0 then w.fail "C18" "leak" s!"{subs} subscription(s) of the underlying pubsub are still open after every store was closed: the node stays on the topic, its peers never see it leave or come back" else w }
   | "dropped" =>
@@ -457,6 +459,11 @@ def Full.step (f : Full) (line : String) : Full :=
   | "eread" => let (w, ew) := onERead (bump f.w) f.ew toks; { f with w := w, ew := ew }
   | "efinal" => let (w, ew) := onEFinal (bump f.w) f.ew toks; { f with w := w, ew := ew }
   | "eclosed" => { f with w := onEClosed (bump f.w) toks }
+  | "reuseopts" =>
+    let w := bump f.w
+    -- (a name Create refuses is refused both times: nothing to judge)
+    { f with w := if arg toks "first" == "ok" && arg toks "second" == "ok" then
+        w.fail "C14" "create" s!"peer {toks.getD 1 ""}: Create over an existing local database succeeded without overwrite: the options value had been used for Open(name, Create: true) before, which wrote Overwrite={arg toks "overwrite"} into it" else w }
   | "eglobal" =>
     let w := bump f.w
     let w := if arg toks "first" != "true" then w.fail "C16" "loss" "GlobalChannel: the first caller did not receive the emitted event" else w
